@@ -1,5 +1,6 @@
 //! C06 / C16: Transform constructors, composition, and every transform_* function.
 use crate::util::*;
+use geometry3d::intersection::{IntersectionInfo, SurfaceSide};
 use geometry3d::{BBox3D, Point3D, Ray3D, Transform, Vector3D};
 
 #[derive(Clone, Debug)]
@@ -43,6 +44,13 @@ pub fn rand_elem(r: &mut Rng) -> Elem {
     }
 }
 pub fn rand_chain(r: &mut Rng) -> Vec<Elem> {
+    if r.chance(0.1) {
+        // determinant band: only scalings with small factors, so that |det| drops to ~1e-17, either sign
+        let mut c: Vec<Elem> = (0..6).map(|_| Elem::Sc(r.range(0.1, 0.15) as Float, r.range(0.1, 0.15) as Float, r.range(0.1, 0.15) as Float)).collect();
+        let flips = r.below(4); // 0..3 mirrored axes: both parities
+        for k in 0..flips { if let Elem::Sc(x, y, z) = c[(k as usize * 2) % 6] { c[(k as usize * 2) % 6] = Elem::Sc(-x, y, z); } }
+        return c;
+    }
     let n = r.below(7);
     (0..n).map(|_| rand_elem(r)).collect()
 }
@@ -71,7 +79,7 @@ struct P(Point3D); struct W(Vector3D);
 impl From<P> for [Float; 3] { fn from(p: P) -> Self { [p.0.x, p.0.y, p.0.z] } }
 impl From<W> for [Float; 3] { fn from(p: W) -> Self { [p.0.x, p.0.y, p.0.z] } }
 
-pub const N_OPS: usize = 21;
+pub const N_OPS: usize = 23;
 pub fn n_inputs(op: usize) -> usize {
     match op { 0..=5 => 3, 6 | 7 => 6, 8 | 9 => 6, 10 => 0, 11 | 12 | 15 | 16 => 3, 13 | 14 | 17 | 18 => 6, _ => 12 }
 }
@@ -99,6 +107,11 @@ pub fn apply(t: &Transform, op: usize, i: &[Float]) -> Vec<Float> {
         18 => { let (a, e) = t.inv_transform_vec_propagate_error(v3(i), p3(&i[3..])); ptout(W(a), e) }
         19 => rayout(t.transform_ray_propagate_error(&Ray3D { origin: p3(i), direction: v3(&i[3..]) }, p3(&i[6..]), p3(&i[9..]))),
         20 => rayout(t.inv_transform_ray_propagate_error(&Ray3D { origin: p3(i), direction: v3(&i[3..]) }, p3(&i[6..]), p3(&i[9..]))),
+        21 | 22 => {
+            let info = IntersectionInfo { p: p3(i), normal: v3(&i[3..]), side: SurfaceSide::Front, dpdu: v3(&i[6..]), dpdv: v3(&i[9..]) };
+            let o = if op == 21 { info.transform(t) } else { info.inv_transform(t) };
+            let mut v = pv(o.p); v.extend(vv(o.normal)); v.extend(vv(o.dpdu)); v.extend(vv(o.dpdv)); v
+        }
         _ => unreachable!(),
     }
 }
@@ -157,7 +170,7 @@ pub fn run(seed: u64, n: usize, out: &str, c16: bool) {
         let m = mats(&t);
         let nops = if c16 { 10 } else { 8 };
         for _ in 0..nops {
-            let op = if c16 { 11 + r.below(10) as usize } else { r.below(N_OPS as u64) as usize };
+            let op = if c16 { 11 + r.below(10) as usize } else if chain.len() == 6 && r.chance(0.3) { 10 } else { r.below(N_OPS as u64) as usize };
             let i = rand_inputs(&mut r, op, c16);
             let o = match catch(|| apply(&t, op, &i)) { Ok(o) => o, Err(_) => continue };
             // kind 2: apply
